@@ -395,10 +395,83 @@ static bool drain(struct side *sd, const struct tcase *c, vrng *r, bool until_cl
     return false;
 }
 
+
+/* ---- one blocking xcm_send of more bytes than an int can count (C02): the call must return a count in 1..len (or -1) and exactly that
+ * many bytes must arrive; the bytes come from a reserved, untouched (all-zero) area ---- */
+struct huge_tx { struct vep *e; unsigned char *area; size_t len; volatile int done; int rc, err; };
+static void *huge_sender(void *arg)
+{
+    struct huge_tx *h = arg;
+    struct vs_scope sc = { .active = true, .nonblocking = false, .api = "xcm_send", .ep = h->e->id, .plan = &h->e->plan };
+    vs_enter(&sc); errno = 0; h->rc = xcm_send(h->e->s, h->area, h->len); h->err = errno; vs_leave();
+    h->done = 1;
+    return NULL;
+}
+
+static void huge_send_case(long idx, enum vtp tp, size_t len)
+{
+    cur_case = idx;
+    snprintf(ctx, sizeof ctx, "{\"case\":%ld,\"transport\":\"%s\",\"mode\":\"one blocking xcm_send\",\"len\":%zu}", idx, vtp_name[tp], len);
+    VLOG("case %s", ctx);
+    struct vep A, B, S; veng_ep_init(&A, 0, tp, 11); veng_ep_init(&B, 1, tp, 12); veng_ep_init(&S, 2, tp, 13);
+    A.plan.quiet = B.plan.quiet = true;
+    char why[256] = ""; struct vpair_opts po = { .user_timeout = 120 };
+    if (veng_pair(tp, &A, &B, &S, &po, why, sizeof why) < 0) { vobs("setup_failed", 1); if (A.s) vx_close(&A); if (B.s) vx_close(&B); if (S.s) vx_close(&S); vcase_done(false); return; }
+    size_t alen = ((size_t)1 << 33);
+    unsigned char *area = mmap(NULL, alen, PROT_READ, MAP_PRIVATE | MAP_ANONYMOUS | MAP_NORESERVE, -1, 0);
+    if (area == MAP_FAILED || vx_set_blocking(&A, true) < 0) { vobs("setup_failed", 1); vx_close(&A); vx_close(&B); vx_close(&S); vcase_done(false); return; }
+    struct huge_tx h = { .e = &A, .area = area, .len = len };
+    pthread_t th; pthread_create(&th, NULL, huge_sender, &h);
+    static unsigned char rb[1 << 20], zero[1 << 20];
+    unsigned long long got = 0; bool nonzero = false, closed_us = false; int term = 0, term_errno = 0;
+    double last_progress = vnow();
+    for (;;) {
+        int n = vx_receive(&B, rb, sizeof rb); int se = errno;
+        if (n > 0) { if (memcmp(rb, zero, (size_t)n)) nonzero = true; got += (unsigned long long)n; last_progress = vnow(); continue; }
+        if (n == 0) { term = 1; break; }
+        if (se != EAGAIN) { term = 2; term_errno = se; break; }
+        if (h.done && !closed_us) { struct vs_scope sc = { .active = true, .nonblocking = false, .api = "xcm_close", .ep = 0, .plan = &A.plan }; vs_enter(&sc); xcm_close(A.s); vs_leave(); A.s = NULL; closed_us = true; last_progress = vnow(); }
+        if (vnow() - last_progress > 30) break;
+        struct pollfd none; vs_real_poll(&none, 0, 1);
+    }
+    char key[128];
+    if (!h.done) {
+        snprintf(key, sizeof key, "blocking:hang:%s:huge-send", vtp_name[tp]);
+        vviol(cur_case, "blocking", key, veng_detail(ctx), "blocking xcm_send(len %zu) has not returned although the receiver has read everything that arrived (%llu bytes) and nothing has moved for 30 s; %s", len, got, ctx);
+        vsummary(false); fflush(stdout); _exit(0);
+    }
+    pthread_join(th, NULL);
+    vobs("huge_blocking_sends", 1); vobs_max("max_bytes_in_one_send_call", h.rc > 0 ? h.rc : 0);
+    if (!(h.rc == -1 || (h.rc >= 1 && (size_t)h.rc <= len))) {
+        snprintf(key, sizeof key, "send-outcome:bad-rc:%s", vtp_name[tp]);
+        vviol(cur_case, "send-outcome", key, veng_detail(ctx), "%s: blocking xcm_send(len %zu) returned %d (errno %d); %llu bytes arrived; %s", vtp_name[tp], len, h.rc, h.err, got, ctx);
+    } else if (h.rc > 0 && term == 1 && got != (unsigned long long)h.rc) {
+        snprintf(key, sizeof key, "stream:%s:%s", got < (unsigned long long)h.rc ? "lost" : "extra", vtp_name[tp]);
+        vviol(cur_case, "delivery", key, veng_detail(ctx), "%s: blocking xcm_send(len %zu) reported %d bytes accepted, the sender closed, the receiver got %llu bytes and then end-of-stream; %s", vtp_name[tp], len, h.rc, got, ctx);
+    } else if (h.rc > 0 && got > (unsigned long long)h.rc) {
+        snprintf(key, sizeof key, "stream:extra:%s", vtp_name[tp]);
+        vviol(cur_case, "delivery", key, veng_detail(ctx), "%s: %llu bytes arrived, %d reported accepted; %s", vtp_name[tp], got, h.rc, ctx);
+    }
+    if (nonzero) { snprintf(key, sizeof key, "stream:altered:%s", vtp_name[tp]); vviol(cur_case, "delivery", key, veng_detail(ctx), "%s: bytes other than the zeros that were sent arrived; %s", vtp_name[tp], ctx); }
+    if (term == 2) vobs("close_seen_as_error", 1);
+    (void)term_errno;
+    if (A.s) vx_close(&A); vx_close(&B); vx_close(&S);
+    munmap(area, alen);
+    char cl[64]; snprintf(cl, sizeof cl, "huge-send:%s", vtp_name[tp]); vclass(cl); vsig_str(cl);
+    vcase_done(true);
+}
+
 static void one_case(long idx, void *arg)
 {
     (void)arg;
     struct tcase c; gen_case(&c, idx);
+    if (prop == P_C02) {
+        long gi0 = idx * va.nworkers + va.worker;
+        if (gi0 == 0) { huge_send_case(idx, TP_BTCP, ((size_t)1 << 32) + 4096); return; }
+        if (gi0 == 1) { huge_send_case(idx, TP_BTLS, ((size_t)1 << 31) + 5); return; }
+        if (va.thorough && gi0 == 2) { huge_send_case(idx, TP_BTCP, (size_t)1 << 32); return; }
+        if (va.thorough && gi0 == 3) { huge_send_case(idx, TP_BTLS, ((size_t)1 << 32) + 4096); return; }
+    }
     cur_case = idx;
     vrng r = { vmix(c.sub_seed ^ 0x5151) };
     char cj[700]; case_json(&c, cj, sizeof cj);
